@@ -69,6 +69,11 @@ def project(sensors, transient=True):
     return " ".join(out) if out else "-"
 
 
+def project_reset(sensors):
+    """What a load of a save of `sensors` is meant to give (transient fields at their defaults)."""
+    return project(sensors, transient=False)
+
+
 def project_nodes(sensors):
     """Per-node persisted projection (for "every node is one complete version" checks)."""
     return {pkey(sid): project({sid: s}, transient=False) for sid, s in sensors.items()}
@@ -196,7 +201,7 @@ def history_lines(rng, version, n):
     from mysensors.const import get_const
     const = get_const(version)
     mt, internal, pres, sr = const.MessageType, const.Internal, const.Presentation, const.SetReq
-    nodes = [0, 1, 2, 254, 255 if False else 253]
+    nodes = [0, 1, 2, 254, 253]
     lines = []
     free_text = [sr.V_VAR1, sr.V_VAR2, sr.V_VAR3]
     if hasattr(sr, "V_TEXT"):
@@ -221,10 +226,13 @@ def history_lines(rng, version, n):
             lines.append(f"{node};255;{int(mt.internal)};0;{int(internal.I_SKETCH_VERSION)};{exotic_text(rng, wire=True)}\n")
         elif r < 0.9:
             lines.append(f"{node};255;{int(mt.internal)};0;{int(internal.I_BATTERY_LEVEL)};{rng.choice(['0', '55', '100', '101', 'x'])}\n")
-        elif r < 0.95:
+        elif r < 0.92:
             lines.append(f"255;255;{int(mt.internal)};0;{int(internal.I_ID_REQUEST)};\n")
         elif version >= "2.0":
-            lines.append(f"{node};255;{int(mt.internal)};0;{int(internal.I_HEARTBEAT_RESPONSE)};{rng.choice(['1', '123456', 'x'])}\n")
+            sub = internal.I_HEARTBEAT_RESPONSE
+            if version >= "2.2" and rng.random() < 0.6:
+                sub = internal.I_PRE_SLEEP_NOTIFICATION
+            lines.append(f"{node};255;{int(mt.internal)};0;{int(sub)};{rng.choice(['1', '123456', '500'])}\n")
     return lines
 
 
@@ -251,9 +259,17 @@ def gateway_state(rng, version, n):
         except Exception:  # noqa: BLE001  (other properties' business)
             pass
         if rng.random() < 0.05 and gw.sensors:
-            # controller side: desired values on sleeping nodes, reboot requests
+            # controller side: reboot requests, desired values on sleeping nodes
             nid = rng.choice(list(gw.sensors))
             gw.sensors[nid].reboot = True
+    for nid, s in gw.sensors.items():
+        if s.new_state and rng.random() < 0.8:
+            for cid, c in s.children.items():
+                for vt in list(c.values)[:1]:
+                    try:
+                        gw.set_child_value(nid, cid, vt, rng.choice(["1", "0", "x"]))
+                    except Exception:  # noqa: BLE001
+                        pass
     return gw.sensors
 
 
@@ -385,7 +401,7 @@ class OsProxy:
         return res
 
     def access(self, path, mode):
-        if self._shim.deny_access:
+        if self._shim.deny_access and mode == os.W_OK:
             return False
         return os.access(path, mode)
 
@@ -506,6 +522,7 @@ class FakeTimer:
         self.args, self.kwargs = args or [], kwargs or {}
         self.started = False
         self.cancelled = False
+        self.fired = False
         FakeTimer.instances.append(self)
 
     def start(self):
@@ -515,6 +532,7 @@ class FakeTimer:
         self.cancelled = True
 
     def fire(self):
+        self.fired = True
         self.function(*self.args, **self.kwargs)
 
 
